@@ -11,7 +11,12 @@ use crate::{
 use lazy_static::lazy_static;
 use std::collections::{HashMap, HashSet};
 use std::hash::Hash;
+#[cfg(not(flea1lt_sentinel_rust_verif))]
 use std::sync::{Arc, Mutex, RwLock, Weak};
+#[cfg(flea1lt_sentinel_rust_verif)]
+use std::sync::{Arc, Weak};
+#[cfg(flea1lt_sentinel_rust_verif)]
+use crate::verif::sync::{Mutex, RwLock};
 
 /// ControllerGenfn represents the Traffic Controller generator function of a specific control behavior.
 pub type ControllerGenfn =
